@@ -109,12 +109,53 @@ FilterSeq(x, P(_)) == LET F[k \in 0..Len(x)] == IF k = 0 THEN <<>> ELSE IF P(x[k
                       IN F[Len(x)]
 \* loops of the prefix of x, in order
 PrefLoops(x, sh) == FilterSeq(SubSeqSafe(x, 1, CutPos(x, sh)), LAMBDA n : n.kind = "T")
+LoopSetOf(x, sh) == {<<PrefLoops(x, sh)[k].rv, PrefLoops(x, sh)[k].tile>> : k \in 1..Len(PrefLoops(x, sh))}
 \* holders of the prefix of x that have exactly k prefix loops above them
 HoldersAtLevel(x, sh, k) ==
   LET c == CutPos(x, sh)
       lvl(j) == Cardinality({a \in 1..(j-1) : x[a].kind = "T"})
       F[j \in 0..c] == IF j = 0 THEN <<>> ELSE IF x[j].kind = "S" /\ lvl(j) = k THEN Append(F[j-1], x[j]) ELSE F[j-1]
   IN F[c]
+\* General merge (several shared loops, possibly permuted between p and q): the merged prefix uses a loop order
+\* that respects both pmappings (a loop that is above a holder in p or in q stays above it); a holder goes below
+\* the last of the loops that are above it in its own pmapping.
+LoopsAboveIn(x, j) == {<<x[a].rv, x[a].tile>> : a \in {b \in 1..(j-1) : x[b].kind = "T"}}
+PrefHolders(x, sh) == {j \in 1..CutPos(x, sh) : x[j].kind = "S"}
+\* order constraints of x: loop u must precede loop v if some prefix holder of x has u above it and v below it
+MustPrecede(x, sh, u, v) == \E j \in PrefHolders(x, sh) : u \in LoopsAboveIn(x, j) /\ v \notin LoopsAboveIn(x, j)
+                                                            /\ v \in LoopSetOf(x, sh)
+MergedOrder(p, q, sh) ==
+  LET LS == LoopSetOf(p, sh)
+      n == Cardinality(LS)
+  IN CHOOSE o \in [1..n -> LS] :
+       /\ \A a, b \in 1..n : a # b => o[a] # o[b]
+       /\ \A a, b \in 1..n : a < b => ~MustPrecede(p, sh, o[b], o[a]) /\ ~MustPrecede(q, sh, o[b], o[a])
+OrderExists(p, q, sh) ==
+  LET LS == LoopSetOf(p, sh)
+      n == Cardinality(LS)
+  IN \E o \in [1..n -> LS] :
+       /\ \A a, b \in 1..n : a # b => o[a] # o[b]
+       /\ \A a, b \in 1..n : a < b => ~MustPrecede(p, sh, o[b], o[a]) /\ ~MustPrecede(q, sh, o[b], o[a])
+LevelIn(x, j, o) == LET A == LoopsAboveIn(x, j)
+                        ix == {a \in 1..Len(o) : o[a] \in A}
+                    IN IF ix = {} THEN 0 ELSE Max(ix)
+HoldersAtLevelG(x, sh, o, k) ==
+  LET c == CutPos(x, sh)
+      F[j \in 0..c] == IF j = 0 THEN <<>> ELSE IF x[j].kind = "S" /\ LevelIn(x, j, o) = k THEN Append(F[j-1], x[j]) ELSE F[j-1]
+  IN F[c]
+MergedG(p, q, sh) ==
+  LET o == MergedOrder(p, q, sh)
+      nl == Len(o)
+      pAt(k) == HoldersAtLevelG(p, sh, o, k)
+      qAt(k) == FilterSeq(HoldersAtLevelG(q, sh, o, k),
+                          LAMBDA n : ~ \E a \in 1..Len(pAt(k)) : pAt(k)[a].t = n.t /\ pAt(k)[a].mem = n.mem)
+      Lev[k \in 0..nl] == LET here == TagAll(pAt(k), 0) \o TagAll(qAt(k), 0)
+                           IN IF k = 0 THEN here
+                              ELSE Lev[k-1] \o <<[kind |-> "T", rv |-> o[k][1], tile |-> o[k][2], br |-> 0]>> \o here
+      b1 == TagAll(SubSeqSafe(p, CutPos(p, sh) + 1, Len(p)), 1)
+      b2 == TagAll(SubSeqSafe(q, CutPos(q, sh) + 1, Len(q)), 2)
+  IN Lev[nl] \o b1 \o b2
+
 Merged(p, q, sh) ==
   LET L == PrefLoops(p, sh)
       nl == Len(L)
@@ -148,6 +189,22 @@ JoinReport(jc) ==
       J == {SumJ(jc.P1[pr[1]].obj, jc.P2[pr[2]].obj) : pr \in VP}
   IN [id |-> jc.id, pairs |-> Cardinality(PairsJ(jc)), valid |-> Cardinality(VP), front |-> FrontJ(J)]
 
+\* general variant: any number of shared loops, usage of the finite memories as further objective coordinates
+CompatG(p, q, sh) == /\ p[CutPos(p, sh)].mem = q[CutPos(q, sh)].mem
+                     /\ LoopSetOf(p, sh) = LoopSetOf(q, sh)
+                     /\ Cardinality(LoopSetOf(p, sh)) = Len(PrefLoops(p, sh))   \* no repeated (rv, tile) loop
+                     /\ OrderExists(p, q, sh)
+JoinReportG(jc) ==
+  LET PG == {<<a, b>> \in (1..Len(jc.P1)) \X (1..Len(jc.P2)) : CompatG(jc.P1[a].nodes, jc.P2[b].nodes, jc.sh)}
+      tree(pr) == [id |-> "x", world |-> jc.world, nodes |-> MergedG(jc.P1[pr[1]].nodes, jc.P2[pr[2]].nodes, jc.sh)]
+      fin == {m \in DOMAIN jc.world.level : jc.world.size[m] > 0}
+      mems == jc.usagemems   \* sequence of memories whose usage is an objective coordinate (may be empty)
+      vec(pr) == SumJ(jc.P1[pr[1]].obj, jc.P2[pr[2]].obj)
+                 \o [k \in 1..Len(mems) |-> PeakF(tree(pr), mems[k])]
+      VP == {pr \in PG : \A m \in fin : PeakF(tree(pr), m) <= jc.world.size[m]}
+      J == {vec(pr) : pr \in VP}
+  IN [id |-> jc.id, pairs |-> Cardinality(PG), valid |-> Cardinality(VP), front |-> FrontJ(J)]
+
 VARIABLE i
 \* the execution variables of LoopNest are not used here (definitions only)
 Unused == <<W, nodes, phase, pc, dir, idx, rd, wr, macs, valid, step, since, first, last, live, pts>>
@@ -163,6 +220,7 @@ JInit == /\ i = 1
 JNext == i < Len(JCases) /\ i' = i + 1 /\ UNCHANGED Unused
 JSpec == JInit /\ [][JNext]_<<i, Unused>>
 JEmit == i <= Len(JCases) => PrintT(ToJson(JoinReport(JCases[i])))
+JEmitG == i <= Len(JCases) => PrintT(ToJson(JoinReportG(JCases[i])))
 
 FEmit == i <= Len(FCases) =>
   LET c == FCases[i]
